@@ -98,6 +98,7 @@ def c_into(m, st, f, a):
     mm = re.match(r'^<(.*) as Into<(.*)>>::into$', f) or re.match(r'^<(.*) as From<(.*)>>::from$', f)
     src, dst = (mm.group(1), mm.group(2)) if 'Into<' in f else (mm.group(2), mm.group(1))
     x = a[0]
+    if src in INT_TYPES and dst in INT_TYPES: return cast(x, dst)
     if dst.startswith('Cow<'):
         return Enum('Cow', 1 if 'String' in src else 0, {(1 if 'String' in src else 0): Agg([as_str(x)])})
     if dst in ('std::string::String', 'String') or dst.startswith('Arc<str'): return as_str(x)
@@ -1189,12 +1190,31 @@ def c_default_prim(m, st, f, a):
     if t == 'bool': return False
     if t in ('std::string::String', 'String', '&str'): return mkstr('')
     if t.startswith('Rope<'): return NotImplemented if getattr(m, 'rope_real', False) else RopeV([])
+    d = default_of(m, t)
+    if d is not None: return d
     if re.match(r'^[A-Z][A-Za-z0-9]?$', t):
         rt = generic_runtime_type(m, st, t)
         if rt == 'str': return mkstr('')
         if rt == 'Rope' and getattr(m, 'rope_real', False): return m_call_default_rope(m, st)
         if rt == 'Rope': return RopeV([])
     return NotImplemented
+
+
+def default_of(m, t):
+    """Default::default() of std types given by their printed type (None when unknown)"""
+    t = t.strip()
+    if t in INT_TYPES: return IntV(0, t)
+    if t == 'bool': return False
+    if t in ('std::string::String', 'String', '&str'): return mkstr('')
+    if t.startswith('Cow<') and 'str' in t: return Enum('Cow', 0, {0: Agg([mkstr('')])})
+    if t.startswith(('std::option::Option<', 'Option<')): return none()
+    if t.startswith(('Vec<', 'VecDeque<')): return vec([])
+    if t.startswith(('OnceCell<', 'OnceLock<', 'std::cell::OnceCell<')): return Agg([none()], 'OnceCell')
+    if t.startswith('Rope<') and not getattr(m, 'rope_real', False): return RopeV([])
+    if t.startswith('(') and t.endswith(')'):
+        parts = [default_of(m, x) for x in split_top(t[1:-1])]
+        if all(p is not None for p in parts): return Agg(parts)
+    return None
 
 
 def m_call_default_rope(m, st):
